@@ -18,13 +18,23 @@ def evaluate_case(case, res):
         out.append(V("C09", "timeout", {"wall": pv["wall"]}))
     elif cls["panicked"] or pv["rc"] not in (0, 1):
         out.append(V("C09", "panic", {"rc": pv["rc"], "msg": cls["panic_msg"], "loc": cls["panic_loc"], "stderr": pv["stderr"][-2500:]},
-                     loc=(cls["panic_loc"] or "").split(":")[0], msg=norm_msg(cls["panic_msg"])))
+                     loc=norm_loc(cls["panic_loc"]), msg=norm_msg(cls["panic_msg"])))
     elif pv["rc"] != 0 and cls["n_error"] == 0:
         out.append(V("C09", "failure_without_diagnostic", {"rc": pv["rc"], "stderr": pv["stderr"][-2500:]}))
     if pv["rc"] != 0 and pv["sdk_changed"]:
         out.append(V("C09", "sdk_modified_on_failure", {"changed": pv["sdk_changed"], "rc": pv["rc"]}))
     if accepted and not all(pv["files_exist"]):
         out.append(V("C09", "accepted_but_files_missing", {"files": pv["files_exist"]}))
+    # ---- C20 (compile-time part): two guards that can match the same host must be rejected as conflicting
+    doms = case["spec"].get("domains") or []
+    if accepted and len(doms) >= 2:
+        from e2e.model import common_host
+        for i in range(len(doms)):
+            for j in range(i + 1, len(doms)):
+                h = common_host(doms[i], doms[j])
+                if h is not None:
+                    kinds = sorted(("catch_all" if "{*" in g else "param" if "{" in g else "static") for g in (doms[i], doms[j]))
+                    out.append(V("C20", "overlapping_guards_accepted", {"guards": [doms[i], doms[j]], "common_host": h}, part="conflict", kinds="_vs_".join(kinds)))
     # ---- C02
     if case["mode"] == "inclass" and not accepted and not pv["timeout"]:
         out.append(V("C02", "inclass_rejected", {"rc": pv["rc"], "first_lines": cls["first_lines"], "panic": cls["panic_msg"], "stderr": pv["stderr"][-3000:]},
@@ -95,6 +105,11 @@ def c01_features(spec, err):
         feats["value_policy"] = "/".join(sorted(pol))
     feats["borrowed_in_next_state"] = bool(re.search(r"s_\d+: &v\d+", r))
     return feats
+
+
+def norm_loc(loc):
+    import re
+    return re.sub(r"^.*/registry/src/[^/]+/", "", (loc or "").split(":")[0])
 
 
 def norm_msg(s):
